@@ -573,7 +573,17 @@ fn generate(n: u64, rng: &mut Rng) -> Vec<String> {
             v.push(format!("recdeser {} x", hex(&b)));
         }
     }
-    let mut kdf_budget: u64 = 40 + n / 100; // decrypt ops that reach PBKDF2 (100k rounds) are expensive
+    if n >= 100_000 {
+        // thorough tier: every (b0, b1) of the 3-byte header window, with boundary third bytes
+        for b0 in 0..=255u8 {
+            for b1 in 0..=255u8 {
+                for b2 in [0u8, 7, 8, 0xff] {
+                    v.push(format!("hdr {}", hex(&[b0, b1, b2])));
+                }
+            }
+        }
+    }
+    let mut kdf_budget: u64 = 40 + n / 500; // decrypt ops that reach PBKDF2 (100k rounds) are expensive
     for _ in 0..n {
         match rng.below(20) {
             0 | 1 => {
